@@ -281,7 +281,7 @@ func (m *microRun) do(client int, o mop) mout {
 	m.r.Inc("micro_ops")
 	if out.Panic != "" {
 		site := out.Panic[strings.LastIndex(out.Panic, "@ ")+2:]
-		key := "panic:" + site
+		key := "micro-panic:" + site
 		m.mu.Lock()
 		dup := m.reported[key]
 		m.reported[key] = true
